@@ -25,6 +25,8 @@ import translate  # noqa: E402
 from vlib import core  # noqa: E402
 
 HEADER = "From PV Require Import C10.Kinds C10.Gen C10.Model C10.Compiler C10.Corr."
+SHEADER = ("From Coq Require Import String. From PV Require Import C10.Kinds C10.Gen C10.Model C10.Compiler C10.Corr "
+           "C10.Decode. Open Scope string_scope.")
 
 
 # ------------------------------------------------------------------ gfortran, batched
@@ -282,6 +284,11 @@ def to_tuple(x):
     return x
 
 
+def _strip_notes(text):
+    """generated tables without the trailing `(* note: ... *)` lines"""
+    return "\n".join(l for l in text.split("\n") if not l.startswith("(* note:"))
+
+
 def gen_witness_file(ctx):
     """coq/C10/GenWitness.v from known_findings.json (every listed witness, open or fixed)"""
     recs = []
@@ -342,15 +349,30 @@ def run(ctx):
         ctx.log("TRANSLATOR CRASHED: %s" % gen_error)
     proof_ok, rep = (False, {"errors": [gen_error]})
     model_ok = False
+    reference = HERE / "Gen.reference.v"
     if gen_error is None:
+        ctx.notes["tables_equal_committed_reference"] = (
+            reference.exists() and _strip_notes(reference.read_text()) == _strip_notes((core.COQ / "C10" / "Gen.v").read_text()))
         proof_ok, rep = ctx.prove()
         ctx.log("proof ok=%s discharged=%d/%d" % (proof_ok, ctx.cov["discharged"], ctx.cov["obligations"]))
-        okm, outm = ctx.coq_make(["C10/Corr.vo"])
+        okm, outm = ctx.coq_make(["C10/Corr.vo", "C10/Decode.vo"])
         model_ok = okm
         if not okm:
             ctx.log("model does not build: " + outm[-400:])
     else:
-        ctx.cov["obligations"] = max(ctx.cov["obligations"], 1)
+        # The obligations cannot be re-established for this tree.  The search for a concrete failing input goes on:
+        # the property itself (WF + gfortran) needs no tables, and the model is evaluated with the committed
+        # reference tables of the unchanged code, so every step / written tree on which the implementation is
+        # more permissive than the unchanged code shows up in the correspondence.
+        thms = core.THM_RE.findall(core.strip_comments((core.COQ / "Properties" / "C10.v").read_text()))
+        ctx.cov["obligations"] = max(len(thms), 1)
+        ctx.cov["discharged"] = 0
+        if reference.exists():
+            core.write_if_changed(core.COQ / "C10" / "Gen.v", reference.read_text())
+            okm, outm = ctx.coq_make(["C10/Corr.vo", "C10/Witness.vo", "C10/Decode.vo"])
+            model_ok = okm
+            ctx.notes["model_evaluated_with"] = "committed reference tables props/C10/Gen.reference.v (translator failed)"
+            ctx.log("model built with the reference tables: %s" % okm)
 
     # ---- 2. implementation runs
     rng = ctx.rng("hist")
@@ -393,6 +415,7 @@ def run(ctx):
     if not ctx.thorough:
         # an enclosing OMP parallel region only matters for histories made of OpenMP transformations
         sys_hist += [h for h in spec.systematic_histories(spec.TOPS[1:2]) if omp_only(h[1])]
+    sys_hist += spec.targeted_serial_histories()
     for skel, ops in sys_hist:
         n_sys += 1
         k = n_hist + n_sys
@@ -566,35 +589,51 @@ def run(ctx):
     found_concrete = len(ctx.violations) > n_viol_before
     if model_ok:
         scases = ["(%s, %s, %d, %s)" % (spec.coq_forest(s["before"]), spec.coq_op(s["op"], s["dep_ok"]),
-                                        {"ok": 0, "terr": 1, "crash": 2}[s["verdict"]], spec.coq_forest(s["after"]))
+                                        {"ok": 0, "terr": 1, "crash": 2}[s["verdict"]],
+                                        spec.coq_forest(s["after"]) if s["verdict"] == "ok" else "[]")
                   for s in steps]
         fcases = ["(%s, %d, %s, %s)" % (spec.coq_forest(f["tree"]), {"ok": 0, "generr": 1, "crash": 2}[f["wv"]],
                                         spec.coq_nats(spec.wf_codes(f["tree"])), spec.coq_nats(spec.cc_codes(f["tree"])))
                   for f in finals]
-        def eval_distinct(ctype, fn, cases):
-            """evaluate each distinct case once; returns the indices (into cases) of the failing ones"""
-            first = {}
-            for i, c in enumerate(cases):
-                first.setdefault(c, i)
-            uniq = list(first)
-            badu = set(uniq[j] for j in ctx.coq_eval_failing(HEADER, ctype, fn, uniq, shard=350))
-            return [i for i, c in enumerate(cases) if c in badu], len(uniq)
+        VS = {"ok": 0, "terr": 1, "crash": 2}
+        VF = {"ok": 0, "generr": 1, "crash": 2}
+        sstr = [spec.enc_step(s["before"], s["op"], s["dep_ok"], VS[s["verdict"]], s["after"] if s["verdict"] == "ok" else ())
+                for s in steps]
+        fstr = [spec.enc_final(f["tree"], VF[f["wv"]], spec.wf_codes(f["tree"]), spec.cc_codes(f["tree"])) for f in finals]
 
-        bad_s, n_us = eval_distinct("step_case", "step_agrees", scases)
-        bad_f, n_uf = eval_distinct("final_case", "final_agrees", fcases)
+        # all distinct cases as compact strings in ONE coqc run (Decode.on_any); a sample of them as literal terms,
+        # together with the premises of the gap witnesses, in a second run; both routes must agree on the sample
+        allstr = ['"s' + c[1:] for c in sstr] + ['"f' + c[1:] for c in fstr]
+        alllit = ["inl (inl %s)" % c for c in scases] + ["inl (inr %s)" % c for c in fcases]
+        first = {}
+        for i, c in enumerate(allstr):
+            first.setdefault(c, i)
+        uniq = list(first)
+        badu = set(uniq[j] for j in ctx.coq_eval_failing(SHEADER, "string", "on_any", uniq, shard=4000))
+        stepn = max(1, len(uniq) // ctx.pick(40, 200))
+        sample = [first[c] for c in uniq[::stepn]]
+        wcases = []
+        for kf in kfs:
+            w = kf["witness"]
+            wcases.append("inr (Build_witness %s %s %s %s)" % (
+                spec.coq_forest(to_tuple(w["skeleton"])), core.coq_list(spec.coq_op(o, True) for o in spec.witness_ops(w)),
+                spec.coq_forest(to_tuple(w["final_tree"])), spec.coq_expect(kf["key"])))
+        lit_fn = ("(fun c : (step_case + final_case) + witness => match c with inl (inl x) => step_agrees x "
+                  "| inl (inr x) => final_agrees x | inr w => premises_b w end)")
+        bad_lit = set(ctx.coq_eval_failing(HEADER + " From PV Require Import C10.Witness.", "(step_case + final_case) + witness",
+                                           lit_fn, [alllit[i] for i in sample] + wcases, shard=400))
+        for k, i in enumerate(sample):
+            if (k in bad_lit) != (allstr[i] in badu):
+                raise RuntimeError("string-decoded and literal evaluation of a case differ: %s / %s" % (allstr[i], alllit[i]))
+        closed = set(k - len(sample) for k in bad_lit if k >= len(sample))
+        bad_s = [i for i, c in enumerate(sstr) if ('"s' + c[1:]) in badu]
+        bad_f = [i for i, c in enumerate(fstr) if ('"f' + c[1:]) in badu]
+        n_us, n_uf = len(set(sstr)), len(set(fstr))
         ctx.notes["distinct_cases_evaluated_in_coq"] = {"steps": n_us, "final_trees": n_uf}
         unsound_s = [bad_s[i] for i in ctx.coq_eval_failing(HEADER, "step_case", "step_sound",
                                                             [scases[i] for i in bad_s], shard=400)] if bad_s else []
         unsound_f = [bad_f[i] for i in ctx.coq_eval_failing(HEADER, "final_case", "final_sound",
                                                             [fcases[i] for i in bad_f], shard=400)] if bad_f else []
-        wcases = []
-        for kf in kfs:
-            w = kf["witness"]
-            wcases.append("(Build_witness %s %s %s %s)" % (
-                spec.coq_forest(to_tuple(w["skeleton"])), core.coq_list(spec.coq_op(o, True) for o in spec.witness_ops(w)),
-                spec.coq_forest(to_tuple(w["final_tree"])), spec.coq_expect(kf["key"])))
-        closed = set(ctx.coq_eval_failing(HEADER + " From PV Require Import C10.Witness.", "witness", "premises_b",
-                                          wcases, shard=400)) if wcases else set()
         gaps = {}
         mismatch = []
         for i, kf in enumerate(kfs):
@@ -641,6 +680,25 @@ def run(ctx):
                                    "failing_keys": fails, "final_tree": f["tree"], "written_code": f["text"],
                                    "gfortran_accepted": gfv[0], "gfortran_message": gfv[1], "skeleton": f["skeleton"],
                                    "source_fortran": impl.source_of(f["skeleton"]), "ops": f["log"],
+                                   "how": "props/C10/impl.py: read(skeleton); apply_op for each op; write(); gfortran -fopenmp -fopenacc -S"})
+                    found_concrete = True
+                    break
+        # likewise a tree the implementation's writer accepts although the model's writer refuses it
+        if unsound_f and not found_concrete:
+            for i in unsound_f:
+                f = finals[i]
+                if f["wv"] != "ok" or f["source"] == "direct":
+                    continue
+                gfv = f.get("gf") or (None, "not compiled")
+                fails = spec.wf_keys(f["tree"]) + (spec.cc_keys(f["tree"]) if gfv[0] is False else [])
+                if gfv[0] is False and not fails:
+                    fails = ["gfortran/unmodelled"]
+                if fails:
+                    ctx.violation({"property": "C10", "what": "the writer accepts a tree that the model of the unchanged code refuses, "
+                                   "and the written code violates the property", "failing_keys": fails, "final_tree": f["tree"],
+                                   "written_code": f["text"], "gfortran_accepted": gfv[0], "gfortran_message": gfv[1],
+                                   "skeleton": f["skeleton"], "source_fortran": impl.source_of(f["skeleton"]) if f["skeleton"] else None,
+                                   "ops": f["log"],
                                    "how": "props/C10/impl.py: read(skeleton); apply_op for each op; write(); gfortran -fopenmp -fopenacc -S"})
                     found_concrete = True
                     break
